@@ -909,6 +909,33 @@ func checkXrandStructure(maxN int, seeds int) {
 	}
 }
 
+// checkXrandHuge: Sample(n, k) is O(k), so every n up to the largest int is a legal input: k distinct
+// positions in [0, n), no panic.
+func checkXrandHuge(seeds int) {
+	for _, n := range []int{1 << 31, 1<<31 + 1, 1 << 40, 1 << 53, 1<<53 + 1, 1 << 62, math.MaxInt - 1, math.MaxInt} {
+		for _, k := range []int{0, 1, 2, 5} {
+			for seed := 0; seed < seeds; seed++ {
+				atomic.AddInt64(&cases, 1)
+				r := rand.New(rand.NewSource(int64(seed)))
+				var g []int
+				pp := try(func() { g = xrand.RSample(r, n, k) })
+				ok := pp == nil && len(g) == k
+				seen := map[int]bool{}
+				for _, x := range g {
+					if x < 0 || x >= n || seen[x] {
+						ok = false
+					}
+					seen[x] = true
+				}
+				if !ok {
+					fail("xrand/Sample", "RSample(seed %d, n=%d, k=%d) = %v (panic %v): want %d distinct values in [0,n)", seed, n, k, g, pp, k)
+					return
+				}
+			}
+		}
+	}
+}
+
 // discretised random source: answers are scripted; the script is extended on demand and the path
 // probability tracked.
 type scripted struct {
@@ -1140,6 +1167,7 @@ func main() {
 	checkXmath()
 	checkXerrors()
 	checkXrandStructure(8, seeds)
+	checkXrandHuge(seeds / 4)
 	table := checkXrandUniform(run.Quick())
 	total := atomic.LoadInt64(&cases)
 	run.AddCounts(total, total, total)
